@@ -609,7 +609,7 @@ package runtime
 // register becomes nil) exactly when that value passes the limit or, for an
 // integer loop, when the addition leaves the integer range - a wrapped value is
 // never delivered.
-//@ fragment foradv of (*LuaCont).RunInThread at for RunLoop/switch opcode.TypePfx()/case code.Type7Pfx/if opcode.GetF()/then
+//@ fragment foradv of (*LuaCont).RunInThread at for RunLoop/switch opcode.TypePfx()/case code.Type7Pfx/if#1/then
 //@   prop C16
 //@   arith bv
 //@   requires isNum(start) && isNum(step) && isNum(stop) && (isInt(start) == isInt(step))
@@ -627,7 +627,7 @@ package runtime
 // (otherwise an error); the loop is an integer loop exactly when start and step
 // are integers, else both are converted to floats; the control register is nil
 // exactly when the loop must not run at all.
-//@ fragment forprep of (*LuaCont).RunInThread at for RunLoop/switch opcode.TypePfx()/case code.Type7Pfx/if opcode.GetF()/else
+//@ fragment forprep of (*LuaCont).RunInThread at for RunLoop/switch opcode.TypePfx()/case code.Type7Pfx/if#1/else
 //@   prop C16
 //@   arith bv
 //@   requires c != nil && valueOK(start) && valueOK(stop) && valueOK(step)
